@@ -99,6 +99,12 @@ def cases(seed, tier):
         if rng.random() < 0.2:
             pol['compressions'] = prof['comp'] if rng.random() < 0.6 else ['none']
         c = {'profile': prof, 'policy': pol, 'opts': rng.choice([['-n'], ['-j'], ['-jj'], ['-n', '-b'], ['-n', '-v']]), 'pseed': rng.getrandbits(32)}
+        re_ = gen.case_rng(seed, ID, i, 'empty')
+        if re_.random() < 0.05 and not c.get('role'):
+            # an AEAD-only peer: its MAC name-lists are empty; a policy that lists no MAC either is satisfied by it
+            prof['mac'] = []
+            if pol.get('macs') is not None and re_.random() < 0.7:
+                pol['macs'] = []
         rd = gen.case_rng(seed, ID, i, 'degenerate')
         if pol.get('hostkey_sizes') and rd.random() < 0.08:
             # a degenerate peer: an RSA host key (and CA key) with a modulus of a few bits only; whatever size the tool derives
@@ -231,6 +237,8 @@ def run_case(case, ctx):
         for e in errs:
             cf = refmodels.canon_field(e['mismatched_field'])
             src = {'key': ('host_keys', prof['key']), 'kex': ('kex', prof['kex']), 'enc': ('ciphers', peer['enc']), 'mac': ('macs', peer['mac'])}.get(cf)
+            if src and cf == 'mac' and (not peer['mac'] or not pol.get('macs')):
+                continue        # an empty name-list is carried as [''] or []: not judged
             if src:
                 if e.get('actual') != src[1] or e.get('expected_required') != pol.get(src[0]):
                     out.append(viol('C06 error does not carry the expected/actual values of its field (%s)' % cf, json.dumps(e)[:500]))
